@@ -592,3 +592,91 @@ func ParamOf(v ssa.Value) *ssa.Parameter {
 	}
 	return nil
 }
+
+// ---------------------------------------------------------------------------
+// range loops
+
+// RangeLoop describes a `for ... range x` loop as go/ssa lowers it.
+type RangeLoop struct {
+	Header *ssa.BasicBlock // evaluates the continuation condition
+	Body   *ssa.BasicBlock // first block of the body
+	Done   *ssa.BasicBlock
+	Over   ssa.Value // the slice, array, string or map ranged over (nil for range-over-int)
+	IsMap  bool      // map or string iteration through Range/Next
+	Index  ssa.Value // index phi (slice) or the Next tuple (map)
+	Next   *ssa.Next
+}
+
+// RangeLoops finds the range loops of fn. Slice/array ranges are recognised
+// structurally: a header whose condition is `idx < len(x)` with idx a phi of
+// the header incremented by one on the back edge starting from -1
+// (go/ssa's rangeindex lowering); map/string ranges by their Next.
+func RangeLoops(fn *ssa.Function) []RangeLoop {
+	var out []RangeLoop
+	for _, b := range fn.Blocks {
+		if len(b.Instrs) == 0 {
+			continue
+		}
+		iff, ok := b.Instrs[len(b.Instrs)-1].(*ssa.If)
+		if !ok {
+			continue
+		}
+		// map / string: `ok = extract next #0`
+		if ex, ok := iff.Cond.(*ssa.Extract); ok && ex.Index == 0 {
+			if nx, ok := ex.Tuple.(*ssa.Next); ok {
+				if rg, ok := nx.Iter.(*ssa.Range); ok {
+					out = append(out, RangeLoop{Header: b, Body: b.Succs[0], Done: b.Succs[1], Over: rg.X, IsMap: true, Index: nx, Next: nx})
+				}
+			}
+			continue
+		}
+		bo, ok := iff.Cond.(*ssa.BinOp)
+		if !ok || bo.Op != token.LSS {
+			continue
+		}
+		// idx is `phi + 1` computed in the header (rangeindex) with phi(-1, idx)
+		inc, ok := bo.X.(*ssa.BinOp)
+		if !ok || inc.Op != token.ADD || inc.Block() != b {
+			continue
+		}
+		phi, ok := inc.X.(*ssa.Phi)
+		if !ok || phi.Block() != b || len(phi.Edges) < 2 {
+			continue
+		}
+		if one, ok := ConstInt(inc.Y); !ok || one != 1 {
+			continue
+		}
+		okShape, nInit := true, 0
+		for _, e := range phi.Edges {
+			if c, ok := ConstInt(e); ok && c == -1 {
+				nInit++
+			} else if e != ssa.Value(inc) {
+				okShape = false
+			}
+		}
+		if !okShape || nInit != 1 {
+			continue
+		}
+		var over ssa.Value
+		if call, ok := bo.Y.(*ssa.Call); ok {
+			if bi, ok := call.Common().Value.(*ssa.Builtin); ok && bi.Name() == "len" {
+				over = call.Common().Args[0]
+			}
+		}
+		out = append(out, RangeLoop{Header: b, Body: b.Succs[0], Done: b.Succs[1], Over: over, Index: inc})
+	}
+	return out
+}
+
+// InLoop reports whether block x belongs to the loop (reachable from the body
+// entry without passing the header, and the header is reachable from it).
+func (l RangeLoop) InLoop(x *ssa.BasicBlock) bool {
+	if x == l.Body {
+		return true
+	}
+	cut := map[*ssa.BasicBlock]bool{l.Header: true}
+	if !Reachable(l.Body, x, cut) {
+		return false
+	}
+	return x == l.Header || Reachable(x, l.Header, nil)
+}
